@@ -2,6 +2,7 @@ import RsslVerif.Lemmas.ConstEvalNoPanic
 import RsslVerif.Gen.EvalSites
 import RsslVerif.Lemmas.ConstEvalFloatRound
 import RsslVerif.Lemmas.ConstPosEnum
+import RsslVerif.Lemmas.ConstBinop
 /-!
 # C13 — compile-time constant evaluation matches run-time semantics
 
@@ -461,5 +462,62 @@ example :
       = .error (.cannotDeduce (-1) 4294967295) ∧
     membersOk [some (.scalar .Int32, .cast (.scalar .Int32) (.lit (.intLit 2147483647))), none] = true ∧
     membersWf [some (.scalar .IntLiteral, .lit (.intLit 2147483647)), none] = true := by decide
+
+
+/-! ## operands of different kinds: the type `parse_expr_binop` converts both operands to -/
+section CommonType
+open RsslVerif.Gen.RankTable RsslVerif.Gen.TypingTables RsslVerif.Model.ConstBinop RsslVerif.Lemmas.ConstBinop
+open RsslVerif.Spec
+
+/-- **The common operand type is the one HLSL's usual arithmetic conversions give** — for every binary operator and every
+    pair of operand shapes (`bool`, untyped integer / float literal, `int`, `uint`, `half`, `float`, `double`, an enum with
+    underlying type `int` or `uint`), in both orders: `bool` is promoted to `int` (also for the six comparisons — `TWO == true`
+    compares `2` with `1`), an enum takes part through its underlying type, `int` meets `uint` as `uint`, an integer meets a
+    float as that float, `&&` / `||` work on `bool`, the bit operators refuse floats; operators of other arms have no
+    common type on either side. `commonTy` is computed from the tables re-extracted on every run (`Gen.TypingTables`:
+    ranks, `require_integer`, short-circuit test; `Gen.BinopTyping`: the bool remap and the operators it applies to).
+
+    *Partial*: the pairs of `deviates` are excluded, on which the pinned code chooses another type —
+    (a) a `uint`-backed enum with `bool` / `int`: converted to `int` instead of `uint`
+        (`binop_common_type_uint_enum_not_as_specified`, a defect: known finding);
+    (b) an untyped integer literal with `bool` / an enum: the typed operand is converted to the literal kind
+        (`binop_common_type_literal_pairs`: no typed kind is ever chosen; the folder has no rule for that conversion and the
+        front end refuses it for enums, so no constant results — observed `notconst` / `reject` on every such case of the run).
+    Two enum operands are taken to be of one enum type (`sameEnum`; operands of different enum types are refused). -/
+theorem binop_common_type_as_specified_partial (op : BinOp) (l r : OpShape)
+    (hsame : HlslUsualConv.sameEnum l r = true) (hdev : deviates l r = false) :
+    commonTy op l r = HlslUsualConv.commonTy op l r :=
+  commonTy_table op (binOp_mem_all op) l (shape_mem_all l) r (shape_mem_all r) hsame hdev
+
+/-- non-vacuity: the cases the seeded mutant C13-4 changed (`enum == bool`, `bool < bool`), `int + uint`, `enum + float`,
+    `bool & uint`, `float & int` refused — all inside the hypotheses -/
+example :
+    commonTy .equality .enumInt (.scalar .bool) = some (.scalar .int32) ∧
+    commonTy .lessThan (.scalar .bool) (.scalar .bool) = some (.scalar .int32) ∧
+    commonTy .add (.scalar .int32) (.scalar .uInt32) = some (.scalar .uInt32) ∧
+    commonTy .multiply .enumInt (.scalar .float32) = some (.scalar .float32) ∧
+    commonTy .bitwiseAnd (.scalar .bool) (.scalar .uInt32) = some (.scalar .uInt32) ∧
+    commonTy .bitwiseAnd (.scalar .float32) (.scalar .int32) = none ∧
+    commonTy .subtract .enumUInt .enumUInt = some .right ∧
+    deviates .enumInt (.scalar .bool) = false ∧ HlslUsualConv.sameEnum .enumInt (.scalar .bool) = true := by decide
+
+/-- **Negation with witnesses** of the full statement on the pinned source: an enum whose underlying type is `uint` is
+    converted to `int` when the other operand is `int` or `bool` (every enum ranks below `bool` in
+    `get_non_vector_conversion_rank`, whatever its underlying type), where the usual arithmetic conversions give `uint`:
+    `E1M > (int)0` with `E1M = 4294967295u` folds to `false`. Replayed on the real compiler (corpus, known finding). -/
+theorem binop_common_type_uint_enum_not_as_specified :
+    commonTy .greaterThan .enumUInt (.scalar .int32) = some (.scalar .int32) ∧
+    HlslUsualConv.commonTy .greaterThan .enumUInt (.scalar .int32) = some (.scalar .uInt32) ∧
+    commonTy .add (.scalar .bool) .enumUInt = some (.scalar .int32) ∧
+    HlslUsualConv.commonTy .add (.scalar .bool) .enumUInt = some (.scalar .uInt32) := by decide
+
+/-- on the literal pairs excluded above the code never chooses a typed kind: the common type is the untyped integer
+    literal kind (or `bool` for `&&` / `||`) -/
+theorem binop_common_type_literal_pairs (op : BinOp) (s : OpShape) (hs : s ∈ [OpShape.scalar .bool, .enumInt, .enumUInt])
+    (t : Target) (h : commonTy op (.scalar .intLiteral) s = some t ∨ commonTy op s (.scalar .intLiteral) = some t) :
+    t = .scalar .intLiteral ∨ (op.shortCircuit = true ∧ t = .scalar .bool) :=
+  commonTy_literal_pairs op (binOp_mem_all op) s hs t h
+
+end CommonType
 
 end RsslVerif.Thm.C13
